@@ -193,6 +193,7 @@ func runC03(c *kit.Ctx) {
 
 	// ---- R1 ---------------------------------------------------------------
 	c.StartRule("R1", "single failure transition under failOnce", 4)
+	noBlockingWhileLocked(c, true, [3]string{"region", "client", "fail"})
 	failureTransition(c)
 
 	// ---- R2 ---------------------------------------------------------------
